@@ -45,6 +45,7 @@ type V struct {
 	L  []V          `json:"l,omitempty"`  // List, Vec
 	M  map[string]V `json:"m,omitempty"`  // Map
 	St []string     `json:"st,omitempty"` // Set (sorted)
+	F  any          `json:"-"`            // reference interpreter only: the callable behind a Fn
 }
 
 const KwMark = "\u029e"
@@ -206,6 +207,16 @@ func eq(a, b V, seqLoose bool) bool {
 			bk = List
 		}
 	}
+	// a Go error is opaque: which error it is, is checked separately with errors.Is.
+	// A builtin that fails inside the reflective call panics with a plain string, which
+	// arrives as a lisp string: also "the failure object of a builtin".
+	if ak == GoErr || bk == GoErr {
+		o := bk
+		if ak != GoErr {
+			o = ak
+		}
+		return o == GoErr || o == Str
+	}
 	if ak != bk {
 		return false
 	}
@@ -216,8 +227,10 @@ func eq(a, b V, seqLoose bool) bool {
 		return a.B == b.B
 	case Int:
 		return a.I == b.I
-	case Str, Kw, Sym, Other, GoErr:
+	case Str, Kw, Sym, Other:
 		return a.S == b.S
+	case GoErr:
+		return true // which Go error it is, is checked separately with errors.Is
 	case List, Vec:
 		if len(a.L) != len(b.L) {
 			return false
